@@ -497,7 +497,7 @@ def analytic_case(draw, names=None, nmax=12, need_edge=True, modes=('rho', 'sets
     tmin = draw(st.sampled_from([0, 0, -1.5, 2.0]))
     case = {'entry': name, 'gc': gc, 'mode': mode, 'tau': draw(rs), 'gamma': draw(rs),
             'p': draw(st.sampled_from([0.0, 0.3, 0.5, 0.8, 1.0])),
-            'rho': draw(st.sampled_from([0.05, 0.1, 0.25, 0.5, 0.01, 0.6, 0.05, 0.1, 0.25, 0.5, 0.0, 0])),      # 0: nobody infected (degenerate, tmin row only)
+            'rho': draw(st.sampled_from([0.05, 0.0, 0.1, 0.25, 0.5, 0, 0.01, 0.6, 0.1, 0.25])),      # 0: nobody infected (degenerate, tmin row only)
             'tmin': tmin, 'tmax': tmin + draw(st.sampled_from([1.0, 2.5, 5.0])), 'tcount': draw(st.sampled_from([2, 3, 6, 11])),
             'dtmin': draw(st.sampled_from([0, 0, 1, -2])), 'I0': [], 'R0': [], 'float_Ks': draw(st.booleans())}
     case['dtmax'] = case['dtmin'] + draw(st.integers(1, 6))
